@@ -9,6 +9,8 @@ package asp
 import (
 	"bytes"
 	"fmt"
+	"runtime/debug"
+	"strings"
 )
 
 // VerifC19Token is one token as the lexer emitted it.
@@ -75,4 +77,50 @@ func VerifC19Lex(data []byte) (toks []VerifC19Token, out VerifC19Outcome) {
 		l.Next()
 	}
 	return toks, VerifC19Outcome{Kind: "ok", N: len(toks)}
+}
+
+// ---- the other public entry points (added for the first-token follow-up) -------------------------------
+
+// VerifC19Guard runs f and turns a panic that leaves it into Kind "crash" (Msg: the panic value and the
+// innermost frames of package asp). None of the public parse entry points may ever panic: the real callers
+// (plz's parse step, the language server, the formatter) have no recover around them.
+func VerifC19Guard(f func() VerifC19Outcome) (out VerifC19Outcome) {
+	defer func() {
+		if r := recover(); r != nil {
+			var frames []string
+			for _, l := range strings.Split(string(debug.Stack()), "\n") {
+				if strings.HasPrefix(l, "github.com/thought-machine/please/src/parse/asp.") && !strings.Contains(l, "VerifC19") {
+					if i := strings.LastIndexByte(l, '('); i > 0 {
+						l = l[:i]
+					}
+					frames = append(frames, strings.TrimPrefix(l, "github.com/thought-machine/please/src/parse/asp."))
+					if len(frames) == 3 {
+						break
+					}
+				}
+			}
+			out = VerifC19Outcome{Kind: "crash", Offset: -1, Msg: fmt.Sprint(r) + " in " + strings.Join(frames, " <- ")}
+		}
+	}()
+	return f()
+}
+
+// VerifC19ParseFileOnly runs the real Parser.ParseFileOnly on an existing file.
+func VerifC19ParseFileOnly(filename string) VerifC19Outcome {
+	stmts, err := newParser().ParseFileOnly(filename)
+	out := verifC19Classify(err)
+	out.N = len(stmts)
+	return out
+}
+
+// VerifC19ParseReaderFailing runs the real Parser.ParseReader on data that does NOT parse. The parser here has
+// no interpreter; ParseReader returns before interpreting when parsing fails, so the caller must only pass
+// data on which ParseData reported an error (the parser is deterministic). Kind "parsed" reports a success.
+func VerifC19ParseReaderFailing(data []byte) VerifC19Outcome {
+	ok, err := newParser().ParseReader(nil, &namedReader{r: bytes.NewReader(data), name: "verif-c19-no-such-dir/BUILD"}, nil, nil, 0)
+	out := verifC19Classify(err)
+	if ok {
+		out.Kind = "parsed"
+	}
+	return out
 }
